@@ -30,11 +30,18 @@ type syncSink struct {
 	buf       bytes.Buffer
 	syncedLen int
 	syncs     int
+	failWrite bool // every Write fails (nothing is stored)
+	failSync  bool // every Sync reports an error (after having synced)
+	attempts  int
 }
 
 func (s *syncSink) Write(p []byte) (int, error) {
 	s.mu.Lock()
 	defer s.mu.Unlock()
+	s.attempts++
+	if s.failWrite {
+		return 0, fmt.Errorf("sink write failed")
+	}
 	return s.buf.Write(p)
 }
 func (s *syncSink) Sync() error {
@@ -42,6 +49,9 @@ func (s *syncSink) Sync() error {
 	defer s.mu.Unlock()
 	s.syncedLen = s.buf.Len()
 	s.syncs++
+	if s.failSync {
+		return fmt.Errorf("sink sync failed")
+	}
 	return nil
 }
 func (s *syncSink) snapshot() (string, int) {
@@ -58,8 +68,22 @@ type c06Config struct {
 	Level     string // dpanic panic fatal
 	Front     string
 	Msg       string // message logged (std-log front ends trim surrounding white space)
-	BufSize   int    // BufferedWriteSyncer size (0 = 1 MiB)
+	BufSize   int    // BufferedWriteSyncer size (0 = 1 MiB, -1 = no buffering: the core writes straight to the sink)
+	Fault     string // "" | writeerr | syncerr | corefail-before | corefail-after: a failing destination must not prevent termination
 }
+
+// c06FailCore accepts every entry and fails to write it.
+type c06FailCore struct{ zapcore.LevelEnabler }
+
+func (c c06FailCore) With([]zapcore.Field) zapcore.Core { return c }
+func (c c06FailCore) Check(e zapcore.Entry, ce *zapcore.CheckedEntry) *zapcore.CheckedEntry {
+	if c.Enabled(e.Level) {
+		return ce.AddCore(e, c)
+	}
+	return ce
+}
+func (c c06FailCore) Write(zapcore.Entry, []zapcore.Field) error { return fmt.Errorf("core write failed") }
+func (c c06FailCore) Sync() error                                { return fmt.Errorf("core sync failed") }
 
 func (c c06Config) msg() string {
 	if c.Msg == "" {
@@ -186,6 +210,12 @@ func c06Core(cfg c06Config, ws zapcore.WriteSyncer) (zapcore.Core, *observer.Obs
 	enab := zap.LevelEnablerFunc(func(l zapcore.Level) bool { return l >= th })
 	jc := zapcore.NewCore(zapcore.NewJSONEncoder(zapcore.EncoderConfig{MessageKey: "m", LevelKey: "l", EncodeLevel: zapcore.LowercaseLevelEncoder}), ws, enab)
 	oc, logs := observer.New(enab)
+	switch cfg.Fault {
+	case "corefail-before":
+		jc = zapcore.NewTee(c06FailCore{enab}, jc)
+	case "corefail-after":
+		jc = zapcore.NewTee(jc, c06FailCore{enab})
+	}
 	switch cfg.Core {
 	case "json":
 		return jc, nil
@@ -216,12 +246,15 @@ type recHook struct {
 	synced int
 	obsLen int
 	logs   *observer.ObservedLogs
+	entry  string // level|message of the entry the hook was handed
 }
 
 func (h *recHook) OnWrite(ce *zapcore.CheckedEntry, _ []zapcore.Field) {
 	h.mu.Lock()
 	defer h.mu.Unlock()
 	h.n++
+	c08Audit.Info("terminal hook invoked") // hooks may log before looking at their entry
+	h.entry = fmt.Sprintf("%v|%s", ce.Level, ce.Message)
 	h.seen, h.synced = h.under.snapshot()
 	if h.logs != nil {
 		h.obsLen = h.logs.Len()
@@ -241,11 +274,15 @@ func propC06(t *rapid.T) {
 	names := c06FrontNames(cfg.Level)
 	cfg.Front = rapid.SampledFrom(names).Draw(t, "frontEnd")
 	cfg.Msg = rapid.SampledFrom([]string{"", "", "<empty>", " ", "\n", "  padded  ", "two\nlines", strings.Repeat("long ", 300)}).Draw(t, "message")
-	cfg.BufSize = rapid.SampledFrom([]int{0, 0, 16, 256, 4096}).Draw(t, "bufferSize")
+	cfg.BufSize = rapid.SampledFrom([]int{0, 0, 16, 256, 4096, -1}).Draw(t, "bufferSize")
+	cfg.Fault = rapid.SampledFrom([]string{"", "", "", "writeerr", "syncerr", "corefail-before", "corefail-after"}).Draw(t, "fault")
 	c06RunInProcess(t, cfg)
 	enabled := c06Enabled(cfg)
 	nt := !enabled || cfg.Hook == "nil" || cfg.Hook == "noop" || (enabled && cfg.Core != "nop")
 	labels := []string{"front " + cfg.Front, "hook " + cfg.Hook, "core " + cfg.Core}
+	if cfg.Fault != "" {
+		labels = append(labels, "failing destination: "+cfg.Fault)
+	}
 	if !enabled {
 		labels = append(labels, "entry not written (disabled/no-op/sampled out)")
 	}
@@ -262,11 +299,15 @@ func c06Enabled(cfg c06Config) bool {
 func c06RunInProcess(t interface{ Fatalf(string, ...any) }, cfg c06Config) {
 	c06Mu.Lock()
 	defer c06Mu.Unlock()
-	under := &syncSink{}
-	bws := &zapcore.BufferedWriteSyncer{WS: under, Size: cfg.bufSize(), FlushInterval: time.Hour}
-	defer bws.Stop()
-	core, logs := c06Core(cfg, bws)
-	var opts []zap.Option
+	under := &syncSink{failWrite: cfg.Fault == "writeerr", failSync: cfg.Fault == "syncerr"}
+	var ws zapcore.WriteSyncer = under
+	if cfg.BufSize >= 0 {
+		bws := &zapcore.BufferedWriteSyncer{WS: under, Size: cfg.bufSize(), FlushInterval: time.Hour}
+		defer bws.Stop()
+		ws = bws
+	}
+	core, logs := c06Core(cfg, ws)
+	opts := []zap.Option{zap.ErrorOutput(&memSink{})}
 	if cfg.Dev {
 		opts = append(opts, zap.Development())
 	}
@@ -342,6 +383,9 @@ func c06RunInProcess(t interface{ Fatalf(string, ...any) }, cfg c06Config) {
 			t.Fatalf("%s: default action ran although a custom hook is configured (panic=%v exit=%v goexit=%v)", desc, panicked, stub.Exited, goexited)
 		}
 		sinkAt, syncedAt, obsAt = hook.seen, hook.synced, hook.obsLen
+		if want := fmt.Sprintf("%v|%s", lvl, cfg.loggedMsg()); hook.entry != want {
+			t.Fatalf("%s: the custom hook was handed entry %q, the logged entry is %q", desc, clipS(hook.entry), clipS(want))
+		}
 	case "goexit":
 		if !goexited || stub.Exited {
 			t.Fatalf("%s: goroutine was not terminated by Goexit (returned=%v panic=%v exit=%v)", desc, returned, panicked, stub.Exited)
@@ -366,7 +410,16 @@ func c06RunInProcess(t interface{ Fatalf(string, ...any) }, cfg c06Config) {
 	}
 	mj, _ := json.Marshal(cfg.loggedMsg())
 	line := fmt.Sprintf("{\"l\":%q,\"m\":%s", lvl.String(), mj)
-	if c06Enabled(cfg) {
+	if c06Enabled(cfg) && cfg.Fault == "writeerr" {
+		// the sink rejects every write: the entry cannot be there, but the write
+		// must have been attempted and the other tee branch must have the entry
+		if under.attempts == 0 {
+			t.Fatalf("%s: the entry was never offered to the (failing) sink", desc)
+		}
+		if logs != nil && obsAt != 1 {
+			t.Fatalf("%s: observer branch of the tee had %d entries when the terminal action ran", desc, obsAt)
+		}
+	} else if c06Enabled(cfg) {
 		if !strings.Contains(sinkAt, line) {
 			t.Fatalf("%s: when the terminal action ran the underlying sink (below the buffer) held %q, not the entry", desc, sinkAt)
 		}
@@ -387,6 +440,150 @@ func c06RunInProcess(t interface{ Fatalf(string, ...any) }, cfg c06Config) {
 }
 
 func TestC06Terminal(t *testing.T) { rapid.Check(t, propC06) }
+
+// ---- terminal entry while another Sync of the same output is in flight ----
+//
+// The harness owns the schedule: gateSink parks the FIRST Sync call inside the
+// sink until released. While it is parked another goroutine logs the terminal
+// entry; when its terminal action runs the sink must already have seen a Sync
+// that STARTED after the entry was written (a Sync that began earlier says
+// nothing about the new bytes).
+
+type gateSink struct {
+	mu         sync.Mutex
+	buf        bytes.Buffer
+	syncedLen  int // bytes present when the most recent Sync call started
+	syncCalls  int
+	armed      bool
+	inSync     chan struct{}
+	release    chan struct{}
+	lateWrites int
+}
+
+func (g *gateSink) Write(p []byte) (int, error) {
+	g.mu.Lock()
+	defer g.mu.Unlock()
+	return g.buf.Write(p)
+}
+
+func (g *gateSink) Sync() error {
+	g.mu.Lock()
+	g.syncCalls++
+	park := g.armed
+	g.armed = false
+	if !park {
+		g.syncedLen = g.buf.Len()
+	}
+	g.mu.Unlock()
+	if park {
+		close(g.inSync)
+		<-g.release
+	}
+	return nil
+}
+
+func (g *gateSink) snapshot() (string, int) {
+	g.mu.Lock()
+	defer g.mu.Unlock()
+	return g.buf.String(), g.syncedLen
+}
+
+type gateHook struct {
+	g      *gateSink
+	n      int
+	seen   string
+	synced int
+}
+
+func (h *gateHook) OnWrite(*zapcore.CheckedEntry, []zapcore.Field) {
+	h.n++
+	h.seen, h.synced = h.g.snapshot()
+}
+
+func propC06SyncInFlight(t *rapid.T) {
+	c06Mu.Lock()
+	defer c06Mu.Unlock()
+	g := &gateSink{armed: true, inSync: make(chan struct{}), release: make(chan struct{})}
+	level := rapid.SampledFrom([]string{"panic", "fatal", "dpanic"}).Draw(t, "level")
+	lvl := c06LevelOf[level]
+	hook := &gateHook{g: g}
+	enc := zapcore.NewJSONEncoder(zapcore.EncoderConfig{MessageKey: "m", LevelKey: "l", EncodeLevel: zapcore.LowercaseLevelEncoder})
+	var core zapcore.Core = zapcore.NewCore(enc, g, zapcore.DebugLevel)
+	wrap := rapid.SampledFrom([]string{"plain", "tee", "sampler", "hooked", "increase"}).Draw(t, "wrap")
+	switch wrap {
+	case "tee":
+		oc, _ := observer.New(zapcore.DebugLevel)
+		core = zapcore.NewTee(oc, core)
+	case "sampler":
+		core = zapcore.NewSamplerWithOptions(core, time.Hour, 1000, 1)
+	case "hooked":
+		core = zapcore.RegisterHooks(core, func(zapcore.Entry) error { return nil })
+	case "increase":
+		c, err := zapcore.NewIncreaseLevelCore(core, zapcore.InfoLevel)
+		if err != nil {
+			t.Fatalf("increase: %v", err)
+		}
+		core = c
+	}
+	lg := zap.New(core, zap.Development(), zap.WithFatalHook(hook), zap.WithPanicHook(hook), zap.ErrorOutput(&memSink{}))
+	// who holds the in-flight Sync and who logs: the logger itself or loggers derived from it
+	derive := func(which string) *zap.Logger {
+		switch which {
+		case "with":
+			return lg.With(zap.Int("k", 1))
+		case "named":
+			return lg.Named("n")
+		case "withlazy":
+			return lg.WithLazy(zap.Int("k", 1))
+		}
+		return lg
+	}
+	kinds := []string{"same", "with", "named", "withlazy"}
+	syncer := derive(rapid.SampledFrom(kinds).Draw(t, "syncer"))
+	logger := derive(rapid.SampledFrom(kinds).Draw(t, "logger"))
+	nBefore := rapid.IntRange(0, 3).Draw(t, "entriesBefore")
+	for i := 0; i < nBefore; i++ {
+		lg.Info("before")
+	}
+	fes, restore := c06FrontEnds(logger, level, c06Msg)
+	front := rapid.SampledFrom(c06FrontNames(level)).Draw(t, "frontEnd")
+	syncDone := make(chan struct{})
+	go func() {
+		defer close(syncDone)
+		_ = syncer.Sync() // parks inside the sink
+	}()
+	<-g.inSync
+	logDone := make(chan struct{})
+	go func() {
+		defer close(logDone)
+		defer func() { _ = recover() }()
+		fes[front]()
+	}()
+	select {
+	case <-logDone:
+	case <-time.After(20 * time.Second):
+		close(g.release)
+		t.Fatalf("VERIF-DEADLOCK the terminal entry did not complete while another Sync of the same output was in flight (front %s, wrap %s)", front, wrap)
+	}
+	close(g.release)
+	<-syncDone
+	restore()
+	if hook.n != 1 {
+		t.Fatalf("terminal hook ran %d times (front %s wrap %s level %s)", hook.n, front, wrap, level)
+	}
+	mj, _ := json.Marshal(c06Msg)
+	line := fmt.Sprintf("{\"l\":%q,\"m\":%s", lvl.String(), mj)
+	if !strings.Contains(hook.seen, line) {
+		t.Fatalf("when the terminal action ran the sink held %q, not the entry (front %s wrap %s)", hook.seen, front, wrap)
+	}
+	if hook.synced < len(hook.seen) {
+		t.Fatalf("when the terminal action ran, no Sync that started after the entry was written had reached the sink: %d of %d bytes covered (another Sync was in flight; front %s, wrap %s, level %s)",
+			hook.synced, len(hook.seen), front, wrap, level)
+	}
+	statCase("C06", true, fmt.Sprintf("syncinflight|%s|%s|%s", level, wrap, front), "terminal entry while another Sync is in flight")
+}
+
+func TestC06SyncInFlight(t *testing.T) { rapid.Check(t, propC06SyncInFlight) }
 
 // Completeness: every exported method of the logger types whose name mentions
 // a terminal level has a front-end row.
